@@ -1328,6 +1328,10 @@ func (ex *Exec) constVal(c *ssa.Const) Value {
 			return VInt{IntB(bi)}
 		case u.Info()&types.IsString != 0:
 			return concStr(constant.StringVal(c.Value))
+		case u.Info()&types.IsFloat != 0:
+			// floats are not modelled: a constant may be passed around (metrics, logging); any arithmetic or
+			// comparison on it ends the path as unsupported
+			return VOpaque{Kind: "float"}
 		}
 	}
 	panic(unsupported{"const of type " + t.String()})
